@@ -41,7 +41,7 @@ impl Mode {
             },
         };
 
-        if n > self.max_length() {
+        if len > self.max_length() {
             // probably a programming error. lets bail.
             panic!(
                 "Provided length would overflow the maximum byte size of {}.
